@@ -39,6 +39,10 @@ def configs(tier):
                 add(2, sizes, N, 3 if N < 4 else 2, 2)
     if q:
         add(2, [2, 3], 2, 3, 1)
+    # key components of other integer types (numpy signed / unsigned scalars, as in an empirical sequence held in an array)
+    for dt in ("uint8", "uint32", "int64"):
+        for sizes in ([3], [5]):
+            cfgs.append({"name": f"numpy-{dt}-sizes{sizes}", "K": 1, "sizes": sizes, "N": 2, "nk": 2, "D": 2, "numpy": dt})
     # the distribution of one loader object is replaced between two samplings (setter / re-created empirical table)
     for how in ("setter", "empirical"):
         cfgs.append({"name": f"resample-{how}-N2", "K": 1, "sizes": [2], "N": 2, "nk": 2, "D": 2, "resample": how})
@@ -83,6 +87,21 @@ def path(ctx, cfg):
         n0 = len(ctx.rng_log)
         out = ctx.guard("sampling-raised", loader.sample_jds_from_jdd, N)
         return check_sample(ctx, f"empirical {s1} then {s2} sizes={sizes} N={N} (second sample)", out, keys, W, sizes, N, K, n0)
+    if cfg.get("numpy"):
+        import numpy as np
+
+        dt = getattr(np, cfg["numpy"])
+        N = ctx.fork_int(ctx.int("N", 1, 3))
+        keys = [(dt(1),), (dt(2),), (dt(4),)]
+        W = [0.5, 0.25, 0.25]
+        loader = ctx.guard("loader-raised", JointDegreeManual, {JN.JDD: dict(zip(keys, W)), JN.MOTIF_SIZES: list(sizes)})
+        n0 = len(ctx.rng_log)
+        out = ctx.guard("sampling-raised", loader.sample_jds_from_jdd, N)
+        out = [tuple(int(x) for x in e) if type(e) is tuple else e for e in out]
+        for rec in ctx.rng_log[n0:]:
+            if rec["fn"] == "choices":
+                rec["result"] = [tuple(int(x) for x in e) for e in rec["result"]]
+        return check_sample(ctx, f"numpy {cfg['numpy']} keys {[int(k[0]) for k in keys]} sizes={sizes} N={N}", out, keys, W, sizes, N, K, n0)
     keys = fork_keys(ctx, K, cfg["D"], cfg["nk"])
     W = [ctx.real(f"w{j}", 0, lo_strict=True) for j in range(len(keys))]
     jdd = {k: w for k, w in zip(keys, W)}
